@@ -3,6 +3,7 @@ Monitor: address of &*x / &mut *x compared with the address of the designated fi
 referent for reference-typed fields) obtained by a generator-written accessor; fingerprint of the
 whole value before and after a write through &mut *x. Native and Miri (aliasing / UB)."""
 import json
+import re
 
 from .. import behave as BH
 from .. import harness as H
@@ -190,9 +191,12 @@ def judge(chk, c, obs, dropped, miri_obs=None):
 # with {i}, expression writing through `m: &mut Target`, value expr after the write)
 LEAK, LEAKM = RT + "leak", RT + "leak_mut"
 CLASSES = {
-    "u32": ("u32", [("u32", 0, True), ("&'a u32", 1, False), ("&'a &'a u32", 2, False), ("&'a mut u32", 1, True)],
+    "u32": ("u32", [("u32", 0, True), ("&'a u32", 1, False), ("&'a &'a u32", 2, False), ("&'a mut u32", 1, True),
+                    ("&'a mut &'a u32", 2, False), ("&'a &'a mut u32", 2, False), ("&'a mut &'a mut u32", 2, True),
+                    ("&'a mut &'a &'a u32", 3, False)],
             "{i}u32 + 100", "*m = 777;", "777u32"),
-    "slice": ("[u16]", [("&'a [u16]", 1, False), ("&'a mut [u16]", 1, True), ("&'a &'a [u16]", 2, False)],
+    "slice": ("[u16]", [("&'a [u16]", 1, False), ("&'a mut [u16]", 1, True), ("&'a &'a [u16]", 2, False),
+                        ("&'a mut &'a [u16]", 2, False), ("&'a mut &'a mut [u16]", 2, True)],
               "[{i}u16, 7, 9]", "m[0] = 777;", "[777u16, 7, 9]"),
     "str": ("str", [("&'static str", 1, False), ("&'a &'static str", 2, False)],
             "[\"p\", \"q\", \"r\", \"s\", \"t\", \"u\", \"v\", \"w\", \"x\", \"y\"][{i}]", None, None),
@@ -213,6 +217,13 @@ def rich_field_expr(ft, depth, mutable, val):
     """constructor expression of a field of (reference) type `ft` whose referent is `val`"""
     if depth == 0:
         return val
+    if "mut" in ft and depth >= 2:
+        # mixed nestings: one leak per layer, innermost first, mutable where the type says so
+        layers = re.findall(r"&'a( mut)?", ft)
+        e = val
+        for m in reversed(layers):
+            e = "%s(%s)" % (LEAKM if m else LEAK, e)
+        return e
     if "str" in ft and depth == 1:
         return val
     inner = val
@@ -384,6 +395,69 @@ def rich_case(seed, k):
     return c
 
 
+def self_ref_case(seed, k):
+    """the designated field is a reference to the derived type itself (`&'a Ty<'a>`, `&'a &'a Ty<'a>`): Target is the type,
+    `&*x` the referent.  The values are statics that point at each other."""
+    rng = rng_for(seed, PROP, "selfref", k)
+    depth = rng.choice([1, 1, 2])
+    path = rng.choice(["Ty<'a>", "Ty<'a>", "self::Ty<'a>"])
+    fty = "&'a " * depth + path
+    kind = rng.choice(["struct", "tuple", "enum"])
+    mark = rng.random() < 0.7
+    deco = rng.random() < 0.6
+    a = "#[educe(Deref)] " if (mark or deco) else ""
+
+    def ref(name):
+        e = "&" + name
+        for _ in range(depth - 1):
+            e = "&" + e
+        return e
+    if kind == "struct":
+        fields = [("depth", "u32", None)] if deco else []
+        fields.insert(rng.randint(0, len(fields)), ("parent", fty, a))
+        if deco and rng.random() < 0.5:
+            fields.append(("other", fty, ""))
+        text = "#[derive(::educe::Educe)]\n#[educe(Deref)]\npub struct Ty<'a> {\n%s}\n" % "".join(
+            "    %spub %s: %s,\n" % (at or "", n, t) for n, t, at in fields)
+
+        def val(me, to):
+            return "Ty { %s }" % ", ".join("%s: %s" % (n, "7" if n == "depth" else ref(to if n == "parent" else me)) for n, t, at in fields)
+        acc = "x.parent"
+    elif kind == "tuple":
+        fields = [("u32", None)] if deco else []
+        pos = rng.randint(0, len(fields))
+        fields.insert(pos, (fty, a))
+        text = "#[derive(::educe::Educe)]\n#[educe(Deref)]\npub struct Ty<'a>(%s);\n" % ", ".join("%spub %s" % (at or "", t) for t, at in fields)
+
+        def val(me, to):
+            return "Ty(%s)" % ", ".join("7" if t == "u32" else ref(to) for t, at in fields)
+        acc = "x.%d" % pos
+    else:
+        text = ("#[derive(::educe::Educe)]\n#[educe(Deref)]\npub enum Ty<'a> {\n    Next(%s),\n    Skip {\n        by: u8,\n        #[educe(Deref)]\n"
+                "        to: %s,\n    },\n}\n" % (fty, fty))
+
+        def val(me, to):
+            return ("Ty::Next(%s)" % ref(to)) if me == "A" else ("Ty::Skip { by: 3, to: %s }" % ref(to))
+        acc = "(match x { Ty::Next(p) => *p, Ty::Skip { to, .. } => *to })"
+    glue = "pub static A: Ty<'static> = %s;\npub static B: Ty<'static> = %s;\n" % (val("A", "B"), val("B", "A"))
+    stars = "*" * (depth - 1)
+    drive = []
+    for i, me in enumerate(("A", "B")):
+        drive.append("""        {
+            let x: &Ty<'static> = &%s;
+            %sbegin();
+            let got = %saddr_size(::core::ops::Deref::deref(x));
+            let t: &Ty<'static> = &**x;
+            let want = %saddr_size::<Ty<'static>>(%s%s);
+            %sobs("s%d", "rderef", %d, -1, &format!("{}\\t{:?}\\t{:?}\\t{:?}", (got == want && %saddr_size(t) == want) as u8, got, want, "-"));
+        }""" % (me, RT, RT, RT, stars, acc, RT, k, i, RT))
+    c = BH.Case("s%d" % k, None, text, [], glue=glue, drive="\n".join(drive),
+                info={"rich": True, "mut": False, "cls": "self-reference", "kind": kind, "n": 2, "multi": True})
+    c.module = lambda c=c: H.module(c.cid, c.text + c.glue + "pub fn run() {\n    %sguarded(\"%s\", || {\n%s\n    });\n}\n"
+                                    % (RT, c.cid, c.drive))
+    return c
+
+
 def big_tuple_case(seed):
     """a tuple struct with 300 fields: positions beyond 255 (and beyond 9 / 99) must still be the positions that were marked"""
     rng = rng_for(seed, PROP, "big")
@@ -472,7 +546,8 @@ def main(tier, seed, scale=1.0):
                 "non-trivial = some variant has >= 2 fields; distinct by source text")
     chk.assumptions = ["field addresses come from a generator-written match accessor"]
     cases = [gen_case(seed, k) for k in range(n)]
-    cases = [x for pair in zip(cases, [rich_case(seed, k) for k in range(n)]) for x in pair] + [big_tuple_case(seed)]
+    cases = [x for pair in zip(cases, [rich_case(seed, k) for k in range(n)]) for x in pair] + [big_tuple_case(seed)] + \
+        [self_ref_case(seed, k) for k in range(max(12, n // 16))]
     obs, dropped, crashed, _, _ = BH.execute("c09", cases)
     for b, (rc, err) in crashed.items():
         log("C09: binary %s exited with %s: %s" % (b, rc, err[-500:]))
